@@ -321,7 +321,8 @@ fn uniformity_jobs() -> Vec<Job> {
                 }
                 // distinct values identify the member; with duplicates the value's multiplicity weighs
                 let items: Vec<i32> = (0..len).map(|i| if dup && i % 3 == 2 { 0 } else { i as i32 * 10 }).collect();
-                let name = format!("{} over {items:?}", FLAVOURS[usize::from(flavour)]);
+                let shown = if items.len() <= 8 { format!("{items:?}") } else { format!("{} members {:?}..", items.len(), &items[..4]) };
+                let name = format!("{} over {shown}", FLAVOURS[usize::from(flavour)]);
                 jobs.push(Job {
                     name: name.clone(),
                     run: Box::new(move |trials, seed| {
